@@ -334,7 +334,7 @@ Lemma run_quiet : forall c i ms t, quiet i ms ->
   /\ final c (SS t []) (map (fun m => ESse (Some m)) ms) = SS t [].
 Proof.
   intros c i ms t H Ht. induction H as [|m ms Hm _ IH]; [split; reflexivity|].
-  cbn [map run final]. destruct Ht as [-> | ->]; cbn [step s_task s_late]; rewrite Hm, not_pending_nil; cbn [fst snd app];
+  cbn [map run final]. destruct Ht as [-> | ->]; cbn [step s_task s_late]; rewrite (Verif.Proofs.SseLegacy.resolves_not_key c _ _ Hm), not_pending_nil; cbn [fst snd app];
     destruct IH as [IH1 IH2]; rewrite IH1, IH2; split; reflexivity.
 Qed.
 
@@ -347,11 +347,11 @@ Lemma skipn_map_sse : forall p (ms : list msg),
 Proof. intros. apply skipn_map. Qed.
 
 Lemma legacy_step_202 : forall c i notifs ans p,
-  quiet i notifs -> same_key i ans = true ->
+  quiet i notifs -> same_key i ans = true -> kind_terminal (m_kind ans) = true ->
   map snd (run c sinit (legacy_step_events i notifs ans p)) = notifs ++ [ans]
   /\ final c sinit (legacy_step_events i notifs ans p) = sinit.
 Proof.
-  intros c i notifs ans p Hq Ha. unfold legacy_step_events, sinit.
+  intros c i notifs ans p Hq Ha0 Hterm. assert (Ha := Verif.Proofs.SseLegacy.resolves_answer c i ans Hterm Ha0). unfold legacy_step_events, sinit.
   cbn [run final step s_task s_late fst snd app]. rewrite unabandon_nil.
   rewrite firstn_map_sse, skipn_map_sse.
   destruct (Nat.leb_spec p (length notifs)) as [Hp|Hp].
@@ -397,14 +397,15 @@ Proof.
   rewrite !map_app, map_map. cbn [snd map]. rewrite map_id. reflexivity.
 Qed.
 
-Definition cstep_ok (s : cstep) : Prop := quiet (cs_id s) (cs_notifs s) /\ same_key (cs_id s) (cs_ans s) = true.
+Definition cstep_ok (s : cstep) : Prop :=
+  quiet (cs_id s) (cs_notifs s) /\ same_key (cs_id s) (cs_ans s) = true /\ kind_terminal (m_kind (cs_ans s)) = true.
 
 Lemma legacy_conversation_order : forall c (l : list cstep),
   Forall cstep_ok l ->
   map snd (run c sinit (lconv_events l)) = lconv_canonical l
   /\ final c sinit (lconv_events l) = sinit.
 Proof.
-  intros c l H. induction H as [|s l [Hq Ha] _ [IH1 IH2]]; [split; reflexivity|].
+  intros c l H. induction H as [|s l [Hq [Ha Hterm]] _ [IH1 IH2]]; [split; reflexivity|].
   unfold lconv_events, lconv_canonical in *. cbn [flat_map].
   rewrite run_app, final_app, map_app.
   assert (E : map snd (run c sinit (cstep_events s)) = cs_notifs s ++ [cs_ans s]
